@@ -70,9 +70,9 @@ def castValue (sst : List Text) : Stored → PyVal
 def isUpper (c : Char) : Bool := 65 ≤ c.toNat && c.toNat ≤ 90
 def isDigit (c : Char) : Bool := 48 ≤ c.toNat && c.toNat ≤ 57
 def isLower (c : Char) : Bool := 97 ≤ c.toNat && c.toNat ≤ 122
-/-- characters of names, numbers and references. -/
+/-- characters of names (Excel: letters, digits, `_`, `.`, `\\`, `?`), numbers and references. -/
 def isWordChar (c : Char) : Bool :=
-  isUpper c || isLower c || isDigit c || c = '_' || c = '.' || c = '$' || 128 ≤ c.toNat
+  isUpper c || isLower c || isDigit c || c = '_' || c = '.' || c = '$' || c = '\\' || c = '?' || 128 ≤ c.toNat
 
 /-- `column_index_from_string` (upper-case letters). -/
 def colIndex (s : Text) : Nat := s.foldl (fun a c => a * 26 + (c.toNat - 64)) 0
